@@ -77,12 +77,13 @@ def flatten_without_macro(forest, macro_key):
     return res
 
 
-def run(chk, tier):
+def build(chk, tier, share=1.0):
+    """-> (cases, meta): the macro forms of TLC's tree documents (share: fraction of the walks used)"""
     thorough = tier == "thorough"
     sd = seed()
     rnd = random.Random(sd * 7 + 3)
     recs = []
-    nsim = 6000 if thorough else 500
+    nsim = max(50, int((6000 if thorough else 500) * share))
     for valid_only, maxlen, s in (("TRUE", "24", sd + 11), ("FALSE", "14", sd + 12)):
         c = dict(c06.CONST_NONE, History="TRUE", MaxLen=maxlen, EmitMode='"docs"', ValidOnly=valid_only)
         r = tlc_ok(tlc("JSightTree", "Tree_docs.cfg", consts=c, simulate=nsim, depth=int(maxlen) + 8, tlc_seed=s,
@@ -101,6 +102,11 @@ def run(chk, tier):
         cid = "tm%d" % n
         cases.append({"id": cid, "files": {"main.jst": b64(data)}, "root": "main.jst", "want": ["pastes"]})
         meta[cid] = (doc, rec["out"], new, origin, data, spans, (a, b))
+    return cases, meta
+
+
+def run(chk, tier):
+    cases, meta = build(chk, tier)
     obs = harness("run", cases)
     passed = compared = 0
     for cid, (doc, want, new, origin, data, spans, rng) in meta.items():
